@@ -551,6 +551,9 @@ namespace c17
   // cannot fake a deadlock; the short window keeps the shrinking of a genuine hang affordable. Fallback: no
   // progress for wd_ms whatever the states. Reports like VF_FAIL would and ends the child.
   // ---------------------------------------------------------------------------------------------------
+  /// leave the process at once (not through the sanitizer's _exit interceptor, which sleeps 1 s while other threads live)
+  inline void hard_exit() { syscall(SYS_exit_group, 0); _exit(0); }
+
   inline bool all_other_threads_asleep()
   {
     const long self = long(syscall(SYS_gettid)); bool asleep = true;
@@ -586,7 +589,7 @@ namespace c17
           if(ms(q0) > quiet_ms || ms(t0) > wd_ms)
           {
             J m = J::obj(); m.set("verdict", "fail"); m.set("sym", std::string("hang:no thread made progress and ") + (ms(q0) > quiet_ms ? "all were blocked (deadlock)" : "the time limit passed")); m.set("overrun", 0);
-            std::string s = "V" + m.str() + "\n"; (void)!write(fd, s.data(), s.size()); _exit(0);
+            std::string s = "V" + m.str() + "\n"; (void)!write(fd, s.data(), s.size()); hard_exit();
           }
         }
       });
